@@ -47,6 +47,21 @@ def url_part(name, url):
     return getattr(urlparse(url), name)
 
 
+def jv_dict(v):
+    return v
+
+
+def same_value(a, b):
+    """The very same value: equal and of the same type (1 == 1.0 == True in Python, but not the same TOML value)."""
+    if isinstance(a, dict) and isinstance(b, dict):
+        return a.keys() == b.keys() and all(same_value(a[k], b[k]) for k in a)
+    if isinstance(a, (list, tuple)) and isinstance(b, (list, tuple)):
+        return len(a) == len(b) and all(same_value(x, y) for x, y in zip(a, b))
+    ta = type(a.unwrap()) if hasattr(a, "unwrap") else type(a)
+    tb = type(b.unwrap()) if hasattr(b, "unwrap") else type(b)
+    return ta is tb and a == b
+
+
 def jv_list(v):
     return v
 
@@ -59,4 +74,4 @@ def allocated(x):
     return True
 
 
-__all__ = ["url_part", "re_search", "dict_without", "jv_list", "EPOCH", "ms_aligned", "floor_to_ms", "instants", "fresh", "allocated"]
+__all__ = ["jv_dict", "same_value", "url_part", "re_search", "dict_without", "jv_list", "EPOCH", "ms_aligned", "floor_to_ms", "instants", "fresh", "allocated"]
